@@ -21,6 +21,27 @@ from . import build, driver, engine, oracle, props, wire
 from .genv import VGen
 
 
+def decorate_instances(obj: Any, depth: int = 0) -> None:
+    """give every dataclass instance with a `__dict__` some extra instance state (what a `cached_property` or an
+    ad-hoc attribute leaves there): validation must leave the caller's object exactly as it was"""
+    import dataclasses
+    if depth > 20:
+        return
+    if isinstance(obj, (list, tuple, set, frozenset)):
+        for y in obj:
+            decorate_instances(y, depth + 1)
+    elif isinstance(obj, dict):
+        for y in obj.values():
+            decorate_instances(y, depth + 1)
+    elif dataclasses.is_dataclass(obj) and not isinstance(obj, type) and hasattr(obj, "__dict__"):
+        for f in dataclasses.fields(obj):
+            decorate_instances(getattr(obj, f.name, None), depth + 1)
+        try:
+            object.__setattr__(obj, "_vp_extra_state", ("cached", 1))
+        except Exception:  # noqa
+            pass
+
+
 def snap(obj: Any, seen: Optional[Dict[int, int]] = None, depth: int = 0) -> Any:
     """structure of an object's attribute graph, independent of addresses"""
     seen = seen if seen is not None else {}
@@ -184,6 +205,23 @@ def check_case(case: dict, rng: random.Random, max_exhaustive: int) -> Tuple[Opt
         model_reqs.append({"op": "run", "mode": "async", "env": case["env"], "v": case["v"], "x": x_before,
                            "oracle": oracle.tables(case["v"], case["env"], x_before), "fuel": 400,
                            "_steps": steps})
+    # ---- (a') the caller's objects are left exactly as they were, including instance state that is not a
+    # declared field (what a cached_property or an ad-hoc attribute leaves in `__dict__`); real code only
+    if '"inst"' in json.dumps(case["xs"]):
+        c3 = wire.Ctx()
+        c3.cls_by_id, c3.cls_desc = ctx.cls_by_id, ctx.cls_desc
+        try:
+            ys = [wire.mk_value(c3, x) for x in case["xs"]]
+            for y in ys:
+                decorate_instances(y)
+            for i, y in enumerate(ys):
+                before = snap(y)
+                solo(v, y)
+                if snap(y) != before:
+                    fails.append(f"history call {i}: the caller's object was modified (instance state beyond the declared fields)")
+                    break
+        except Exception:  # noqa
+            pass
     # ---- (c) interleavings of 2-3 validations sharing the instance
     k = min(len(xs), rng.choice([2, 2, 3]))
     idxs = list(range(len(xs)))[:k]
